@@ -16,6 +16,7 @@ import (
 	"strconv"
 	"strings"
 	"sync"
+	"sync/atomic"
 	"time"
 	"unsafe"
 
@@ -54,15 +55,20 @@ func c16GenCache(r *verifh.Rng) []verifh.Section {
 	var secs []verifh.Section
 	nsec := verifh.Scale(40, 500)
 	for i := 0; i < nsec; i++ {
-		limit := r.Pick(0, 1, 2, 3, 3, 4, 5)
+		limit := r.Pick(0, 1, 2, 3, 3, 4, 5, -1, -7)
 		nkeys := limit + r.Range(1, 4)
-		if limit == 0 {
+		if limit <= 0 {
+			// WithLimit(0) / WithLimit(negative): no keyLru, unbounded
 			nkeys = r.Range(1, 6)
 		}
 		// default expiry (seconds): short ones so that entries expire inside the section (1 s: the jitter
 		// takes about half of them below the wheel's resolution); some longer than one revolution of the wheel
 		exps := []int{1, 2, 3, 5, 10, 20, 299, 300, 301, 650}
 		expire := exps[r.Intn(len(exps))]
+		if r.Chance(1, 8) {
+			// NewCache(0) / NewCache(negative): SetTimer rejects the delay, entries get no timer
+			expire = r.Pick(0, 0, -1, -5)
+		}
 		jit := func() int64 {
 			switch r.Intn(4) {
 			case 0:
@@ -87,6 +93,9 @@ func c16GenCache(r *verifh.Rng) []verifh.Section {
 				} else if r.Chance(1, 8) {
 					// below the wheel's resolution of one second
 					e = r.Pick(2, 300000000, 900000000, 999999999)
+				} else if r.Chance(1, 8) {
+					// not positive (after the jitter): 1 ns is truncated to 0 by about half of the factors
+					e = r.Pick(0, 0, 1, 1, -1, -3000000000)
 				}
 				ops = append(ops, fmt.Sprintf("set %d %d %d %d", k, val, e, jit()))
 				val++
@@ -105,6 +114,9 @@ func c16GenCache(r *verifh.Rng) []verifh.Section {
 					burst = r.Pick(2, 3, expire, expire+1, r.Range(1, 40))
 					if burst > 700 {
 						burst = 700
+					}
+					if burst < 1 {
+						burst = 1
 					}
 				}
 				for b := 0; b < burst; b++ {
@@ -263,7 +275,8 @@ func c16StartCache(cfg verifh.Cfg) (func(op []string) string, func()) {
 				}
 			}
 			c.lock.Unlock()
-			return fmt.Sprintf("size=%d lru=%s timers=%d%s", size, keysS(lru, false), tw.timers.Size(), t)
+			return fmt.Sprintf("size=%d lru=%s timers=%d hit=%d miss=%d%s", size, keysS(lru, false), tw.timers.Size(),
+				atomic.LoadUint64(&c.stats.hit), atomic.LoadUint64(&c.stats.miss), t)
 		}
 		return "bad-op"
 	}
